@@ -1,5 +1,5 @@
 """Property -> rules.  Each entry: run(prog, tier) -> (obligations, floors, meta)."""
-from .rules import bounds, arith, index, numctor, cmp, jsonw, memo, strict, lookup, tls, imports, hashord, capi
+from .rules import bounds, arith, index, numctor, cmp, jsonw, memo, strict, lookup, tls, imports, hashord, capi, tables, ops
 
 COMMON_TRUST = [
     "rustc nightly HIR/MIR construction, trait resolution and const evaluation",
@@ -161,6 +161,69 @@ def only(res, prefixes):
     return [o for o in obs if o.key.split(":", 1)[1].startswith(prefixes)], [], an
 
 
+def literal_decoding(prog):
+    """both evaluator parsers decode quoted strings through jrsonnet_ir::unescape::unescape"""
+    from .report import ok, bad, info
+    obs = []
+    callers = {cf.crate.split(".")[0] for cf, b, t in prog.callers.get("jrsonnet_ir::unescape::unescape", [])}
+    want = {"jrsonnet_ir_parser", "jrsonnet_peg_parser"}
+    if want <= callers:
+        obs.append(ok("R-TABLE", "literals:unescape", "", "ir-parser and peg-parser both decode escapes with jrsonnet_ir::unescape::unescape"))
+    else:
+        obs.append(bad("R-TABLE", "literals:unescape", "", "string escapes are not decoded by the shared unescape() in %s" % sorted(want - callers)))
+    cs = {cf.crate.split(".")[0] for cf, b, t in prog.callers.get("jrsonnet_lexer::string_block::collect_lexed_str_block", [])}
+    obs.append(info("R-TABLE", "literals:text-block", "", "text blocks: ir-parser uses the lexer's block scanner (%s); the PEG grammar has its own string_block rule "
+                    "(structural divergence, equality of the two scanners is semantic and not decided)" % sorted(cs)))
+    return obs, [], {}
+
+
+def c01(prog, tier):
+    obs, floors, an = merge(ops.run(prog), tables.run(prog, which=("ir",)), only(strict.run(prog), ("evaluate:exhaustive", "evaluate_binary_op_special")),
+                            only(cmp.run(prog), ("relational:", "bitwise:", "shift-negative:")))
+    meta = {
+        "level": "other",
+        "explanation": (
+            "Static decision of table-shaped necessary conditions of C01: every Expr variant has its own arm in evaluate(); every "
+            "BinaryOpType/UnaryOpType variant is named by a dispatch arm; + - * / % delegate to the evaluate_*_op of the same "
+            "name with operands in order and compute try_num(a OP b) on numbers; `in` uses the include-hidden lookup; &&/|| "
+            "short-circuit; ==/!= are equals / !equals; relational arms use the matching Ordering predicate; array + is "
+            "extended(a, b); unary operators act on the right operand type. The default parser's precedence/associativity/"
+            "token/reserved-word tables equal the Jsonnet grammar. Parameter defaults are evaluated in a context that "
+            "already contains the passed arguments, in both the direct and the prepared (TLA / native) call path. "
+            "NOT decided: that any value is the prescribed one; scoping; experimental desugarings."),
+        "rule": "R-OPS (HIR match-arm tables of the operator dispatch; MIR dominance for argument binding) + R-TABLE (MIR-extracted binding powers, HIR token maps) + R-STRICT/R-CMP arms",
+        "rules": ["R-OPS", "R-TABLE", "R-STRICT", "R-CMP"],
+        "analysed": an,
+        "decided": "operator dispatch and default-parser tables equal the language definition; argument binding order",
+        "not_decided": "values; scoping; parser tree equality",
+        "trusted_base": COMMON_TRUST + ["transcription of the Jsonnet operator/precedence tables in rules/tables.py and rules/ops.py"],
+        "assumptions": [],
+    }
+    return obs, floors, meta
+
+
+def c06(prog, tier):
+    obs, floors, an = merge(tables.run(prog, which=("ir", "peg", "rowan")), literal_decoding(prog))
+    meta = {
+        "level": "other",
+        "explanation": (
+            "Static cross-check of the three parsers' tables with each other and the Jsonnet grammar: binding-power tables of "
+            "the default (ir) and syntax-tree (rowan) parsers extracted from MIR, the PEG precedence!{} block read from the "
+            "macro input: same partition into 10 levels in the same order, all binary operators left-associative, unary "
+            "tighter than binary, same operator tokens, same unary operator set, same 18 reserved words (ir-parser, lexer "
+            "keyword tokens, PEG); both evaluator parsers decode escapes through the shared unescape(). NOT decided: equality "
+            "of trees / accept-reject agreement for all texts (semantics of the generated automata)."),
+        "rule": "R-TABLE: finite table extraction (MIR switch tables, HIR literal arms, token reader on the peg::parser! input) and exhaustive comparison with the specification tables",
+        "rules": ["R-TABLE"],
+        "analysed": an,
+        "decided": "precedence/associativity/token/reserved-word tables of the three parsers",
+        "not_decided": "tree equality; error/accept agreement; text-block scanner equality",
+        "trusted_base": COMMON_TRUST + ["peg, logos, rowan generators"],
+        "assumptions": [],
+    }
+    return obs, floors, meta
+
+
 def c02(prog, tier):
     obs, floors, an = merge(lookup.run(prog), only(memo.run(prog), ("ObjValue::get_idx", "object-locals", "CachedUnbound")),
                             only(tls.run(prog), ("run_assertions",)))
@@ -313,6 +376,8 @@ def c05(prog, tier):
 
 
 PROPS = {
+    "C01": {"run": c01, "thorough_cfgs": ["default", "experimental"]},
+    "C06": {"run": c06, "thorough_cfgs": ["default", "pegparser"]},
     "C02": {"run": c02, "thorough_cfgs": ["default", "experimental"]},
     "C07": {"run": c07, "thorough_cfgs": ["default"]},
     "C15": {"run": c15, "thorough_cfgs": ["default", "capi-nodefault"]},
